@@ -120,4 +120,17 @@ theorem lookup_perm {β : Type} (k : Name) :
     have hnd2 := (h₁.map (·.1)).nodup_iff.1 hnd
     exact (ih₁ hnd).trans (ih₂ hnd2)
 
+/-- two loaded schemas that differ only in the order of the association lists that stand for Go
+    maps (keys unique) -/
+structure SameMaps (s s' : Schema) : Prop where
+  query : s.query = s'.query
+  mutation : s.mutation = s'.mutation
+  subscription : s.subscription = s'.subscription
+  types : s.types.Perm s'.types
+  typeKeys : (s.types.map (·.1)).Nodup
+  directives : s.directives.Perm s'.directives
+  directiveKeys : (s.directives.map (·.1)).Nodup
+  possibleTypes : s.possibleTypes.Perm s'.possibleTypes
+  possibleKeys : (s.possibleTypes.map (·.1)).Nodup
+
 end Gql.Validate
